@@ -144,6 +144,27 @@ func (p *Printer) derive(b *block) *block {
 	return nb
 }
 
+// HasSubquery reports whether e contains EXISTS / IN-subquery / scalar subquery.
+func HasSubquery(e *Expr) bool {
+	if e == nil {
+		return false
+	}
+	if e.Q != nil {
+		return true
+	}
+	for _, a := range e.Args {
+		if HasSubquery(a) {
+			return true
+		}
+	}
+	for _, a := range e.List {
+		if HasSubquery(a) {
+			return true
+		}
+	}
+	return false
+}
+
 func allPlainCols(es []*Expr) bool {
 	for _, e := range es {
 		if e.Op != "col" || e.D != 0 {
@@ -167,7 +188,8 @@ func (p *Printer) build(q *Query, outer [][]string) *block {
 		b := p.build(q.L, outer)
 		// (HAVING over a grouped JOIN is not merged: the engine fails to resolve qualified names of
 		// the joined tables inside HAVING aggregates — "table not found", observed defect.)
-		if p.noFuse(q) || b.raw != "" || !(b.stage == stFrom || b.stage == stGroup) || (b.stage == stGroup && b.isJoin && !p.AllowHavingOverJoin) {
+		if p.noFuse(q) || b.raw != "" || !(b.stage == stFrom || b.stage == stGroup) || (b.stage == stGroup && b.isJoin && !p.AllowHavingOverJoin) ||
+			(b.stage == stGroup && HasSubquery(q.P)) {
 			b = p.derive(b)
 		}
 		pred := p.expr(q.P, scope(b))
